@@ -142,6 +142,7 @@ class Report:
         self.solver_calls = 0
         self.asserts = 0
         self.solver_s = 0.0
+        self.cross = 0
         self.steps = 0
         self.infeasible = 0
         self.items = 0
@@ -170,6 +171,7 @@ class Report:
         self.solver_calls += r.get('solver_calls', 0)
         self.asserts += r.get('asserts', 0)
         self.solver_s += r.get('solver_s', 0.0)
+        self.cross += r.get('cross', 0)
         self.steps += r.get('steps', 0)
         self.infeasible += r.get('infeasible', 0)
         for c in r.get('cells', []):
@@ -208,6 +210,7 @@ class Report:
             'assertions_discharged': self.asserts,
             'solver_queries': self.solver_calls,
             'solver_time_cpu_s': round(self.solver_s, 2),
+            'queries_cross_checked_with_cvc5': self.cross,
             'traces_validated_against_impl': self.validated,
             'samples': self.samples[:6] or ['(none)'],
             'rule': rule,
